@@ -321,6 +321,16 @@ def main(pid, tier, replay=None):
                                what="all histories of edits / setting changes / parser and combined builds over 4 grammar and 3 lexer versions")
         if r["error"]:
             res.violation("bounded model CTBuild.tla: " + r["error"][:400], dict(kind="mc"))
+        # the parser builder's part of the same statement for histories of ANY length over ANY set of
+        # grammar versions: inductive invariant + theorems, TLAPS (a proof concerns the specification
+        # alone; one that does not go through is no verdict on the code)
+        proof = core.run_tlapm("CTBuildProof", ["CTBuild"], res.wd, threads=8)
+        p_out = proof.pop("out")
+        res.notes["tlaps_theorems"] = dict(proof, what="CTBuildProof.tla: Inv inductive (an output newer than the grammar file was made from its current version); "
+                                                        "AfterBuild (successful build = clean build), NoStale, Unchanged")
+        if proof["outcome"] != "proved":
+            res.cov["inconclusive"] += 1
+            res.notes["tlaps_output"] = p_out[-600:]
     run(res, "C18", tier, replay)
     res.assumptions += ["file modification times follow a monotonic clock (edits get a newer time than anything written before)",
                         "rustc, the file system and the build timestamp embedded in generated files are outside the model",
